@@ -24,7 +24,8 @@ THEOREMS = ["get_set_same", "get_set_other", "get_erase_same", "get_erase_other"
             "scalar_eq_spec", "scalar_eq_kinds", "scalar_eq_units", "scalar_eq_str", "le_iff_lt_or_eq",
             "xy_accepts_iff", "xy_refusal_class", "xy_refusal_table", "from1d_accepts_iff", "from1d_refusal_class",
             "arrEq_iff", "xy_eq_spec", "gen_scalar_order_eq_model", "gen_scalar_eq_eq_model",
-            "gen_Scalar_units_get", "gen_Scalar_units_set", "gen_Vector_units_get", "gen_Vector_units_set", "gen_XYData_x_units_get", "gen_XYData_x_units_set", "gen_XYData_y_units_get", "gen_XYData_y_units_set", "gen_NumericWaveform_units_get", "gen_NumericWaveform_units_set", "gen_NumericWaveform_channel_name_get", "gen_NumericWaveform_channel_name_set", "gen_Spectrum_units_get", "gen_Spectrum_units_set", "gen_Spectrum_channel_name_get", "gen_Spectrum_channel_name_set", "gen_DigitalWaveform_channel_name_get", "gen_DigitalWaveform_channel_name_set", "gen_Scalar_ctor_units", "gen_Vector_ctor_units", "gen_XYData_ctor_x_units", "gen_XYData_ctor_y_units", "gen_keys"]
+            "gen_Scalar_units_get", "gen_Scalar_units_set", "gen_Vector_units_get", "gen_Vector_units_set", "gen_XYData_x_units_get", "gen_XYData_x_units_set", "gen_XYData_y_units_get", "gen_XYData_y_units_set", "gen_NumericWaveform_units_get", "gen_NumericWaveform_units_set", "gen_NumericWaveform_channel_name_get", "gen_NumericWaveform_channel_name_set", "gen_Spectrum_units_get", "gen_Spectrum_units_set", "gen_Spectrum_channel_name_get", "gen_Spectrum_channel_name_set", "gen_DigitalWaveform_channel_name_get", "gen_DigitalWaveform_channel_name_set", "gen_Scalar_ctor_units", "gen_Vector_ctor_units", "gen_XYData_ctor_x_units", "gen_XYData_ctor_y_units", "gen_keys",
+            "erase_set_absent", "del_set_absent", "ctorUnits_default", "erase_set_comm", "gen_Scalar_pickle_props", "gen_Vector_pickle_props", "gen_XYData_pickle_props"]
 RULE = ("(1) seeded write histories (attribute setter with str and non-str values, dictionary item assignment and deletion, "
         "pickle / deepcopy) on Scalar, Vector, XYData, AnalogWaveform, ComplexWaveform, Spectrum and DigitalWaveform: after "
         "every step each units / x_units / y_units / channel_name attribute is compared with the dictionary entry (oracle) "
